@@ -87,6 +87,13 @@ class ModuleInfo:
                 self.funcs[n.name] = n
             elif isinstance(n, ast.Assign) and len(n.targets) == 1 and isinstance(n.targets[0], ast.Name):
                 self.assigns[n.targets[0].id] = n.value
+        # names that some function of the module rebinds at run time (`global X; X = ...`): a compiled
+        # kernel freezes the value such a name had when it was compiled, the interpreter looks it up on
+        # every call - a kernel that reads one has no single meaning
+        self.rebound = set()
+        for n in ast.walk(self.tree):
+            if isinstance(n, ast.Global):
+                self.rebound.update(n.names)
 
     @classmethod
     def of(cls, mod):
@@ -117,6 +124,8 @@ class Translator:
     # -- resolution of a global name of module `mi`
     def global_value(self, mi, name, depth=0):
         mod = mi.mod
+        if name in mi.rebound:
+            raise Untranslatable(f"module-level name {name} is rebound at run time (`global {name}`): compiled code freezes it, the interpreter does not")
         if not hasattr(mod, name):
             raise Untranslatable(f"unknown name {name}")
         val = getattr(mod, name)
